@@ -18,7 +18,7 @@ import (
 func init() {
 	Register(&Prop{
 		ID:   "C19",
-		Expl: "A static lockset check, not a race-detector run. A frozen guarded-by table (confirmed by reading; one reason per entry) names the mutex that protects each shared field of the policy, the chain/payment watchers, the swap service, the messenger manager, the peer-sync poller and the per-swap machine (SwapData.*, Previous, retries <- SwapStateMachine.mutex; Current <- stateMutex for writes, stateMutex or mutex for reads). (R1) for EVERY read and write of a tabled field in every production function the guard is in the held-lock set: held locally (flow-sensitive, c18 engine) or by all synchronous callers (intersection over the VTA call graph; go statements and library callbacks start with the empty set). Where some callers hold the guard and others do not, the obligation is moved to the callers that do not (e.g. Recover running actions). An access is exempt only when the object is provably private: allocated in the function (or returned fresh by a callee / the swap store) and not yet stored into shared memory, handed to a goroutine or captured (constructors, pre-publication code); provenance follows parameters up the call graph. Reads are only checked for fields that have a writer after publication. (R2) the functions that store to SwapData fields are enumerated and each is classified (constructor, under the mutex, caller holds it, or violating). The quantifier is over all access sites and all call chains, i.e. all interleavings of the concurrent entry points.",
+		Expl: "A static lockset check, not a race-detector run. A frozen guarded-by table (confirmed by reading; one reason per entry) names the mutex that protects each shared field of the policy, the chain/payment watchers, the swap service, the messenger manager, the peer-sync poller and the per-swap machine (SwapData.*, Previous, retries <- SwapStateMachine.mutex; Current <- stateMutex for writes, stateMutex or mutex for reads). (R1) for EVERY read and write of a tabled field in every production function the guard is in the held-lock set: held locally (flow-sensitive, c18 engine, including the net effect of lock wrappers and release helpers) or by all synchronous callers and not released again by the function itself before the access (intersection over the VTA call graph; go statements and library callbacks start with the empty set). Where some callers hold the guard and others do not, the obligation is moved to the callers that do not (e.g. Recover running actions). An access is exempt only when the object is provably private: allocated in the function (or returned fresh by a callee / the swap store) and not yet stored into shared memory, handed to a goroutine or captured (constructors, pre-publication code); provenance follows parameters up the call graph. Reads are only checked for fields that have a writer after publication. (R2) the functions that store to SwapData fields are enumerated and each is classified (constructor, under the mutex, caller holds it, or violating). The quantifier is over all access sites and all call chains, i.e. all interleavings of the concurrent entry points.",
 		NotD: "Races on fields outside the table (callback fields written once at start-up are deliberately not in it); happens-before through channels, WaitGroups or goroutine creation other than publication of a fresh object; accesses by reflection (json.Marshal of a live machine in Store.UpdateData, fmt verbs); read-side races of code outside package swap on live SwapData (RPC pretty-printers; listed as info, not decided); functions without any production caller that get the object as parameter (info). Lock classes merge instances: holding the mutex of another object of the same class counts as guarded.",
 		Run:  runC19,
 	})
@@ -267,6 +267,10 @@ func runC19(c *an.Check) {
 		detail := a.renderFinding(f)
 		switch a.classify(f) {
 		case "bad":
+			if a.unsureFn(f.fn) {
+				c.Unknown(f.rule, f.construct, f.pos, "the lock state of this function contains an unsupported shape, so the missing guard is not established; "+detail)
+				continue
+			}
 			c.Bad(f.rule, f.construct, f.pos, detail, sortedKeys(f.witness)...)
 		case "info":
 			c.Note(f.rule, f.construct, f.pos, "info, not decided (read of a live swap machine by code outside package swap): "+detail)
@@ -289,6 +293,16 @@ func runC19(c *an.Check) {
 	}
 
 	a.ruleR2(accs)
+}
+
+// unsureFn: the engine could not fully interpret the lock operations of fn.
+func (a *c19An) unsureFn(fn *ssa.Function) bool {
+	for _, u := range a.e.unknown {
+		if u.fn == fn && u.state {
+			return true
+		}
+	}
+	return false
 }
 
 func sortedFindingKeys(m map[string]*c19Finding) []string {
@@ -417,7 +431,9 @@ func (a *c19An) entrySets() {
 					}
 					contrib = s.must.clone()
 					for k := range a.entryMu[s.fn] {
-						contrib[k] = true
+						if !s.relMay[k] { // not released again by the caller before the call
+							contrib[k] = true
+						}
 					}
 				}
 				if accTop {
@@ -456,18 +472,18 @@ func c19HasAny(set c18Set, alts []string) bool {
 	return false
 }
 
-// satisfied: the need is met at instruction in of fn.
+// satisfied: the need is met at instruction in of fn: the guard is held
+// locally, or by every caller and not released again by fn before in.
 func (a *c19An) satisfied(fn *ssa.Function, in ssa.Instruction, n c19Need) bool {
-	if c19HasAny(a.entryMu[fn], n.alts) {
-		return true
-	}
+	var must, rel c18Set
 	if in != nil {
-		must, _ := a.e.HeldAt(in)
+		must, _ = a.e.HeldAt(in)
+		rel = a.e.ReleasedAt(in)
 		if d, ok := in.(*ssa.Defer); ok {
 			// a deferred call runs at function exit
 			for _, s := range a.e.fi[fn].sites {
 				if s.instr == d {
-					must = s.must
+					must, rel = s.must, s.relMay
 				}
 			}
 		}
@@ -475,7 +491,28 @@ func (a *c19An) satisfied(fn *ssa.Function, in ssa.Instruction, n c19Need) bool 
 			return true
 		}
 	}
+	for _, k := range n.alts {
+		if a.entryMu[fn][k] && !rel[k] {
+			return true
+		}
+	}
 	return false
+}
+
+// siteInherits: at call site s the guard is held by all callers of s.fn and
+// s.fn has not released it before the call.
+func (a *c19An) siteInherits(s *c18Site, n c19Need) bool {
+	for _, k := range n.alts {
+		if a.entryMu[s.fn][k] && !s.relMay[k] {
+			return true
+		}
+	}
+	return false
+}
+
+// entryHolds: every caller holds the guard when fn starts (fn may release it later).
+func (a *c19An) entryHolds(fn *ssa.Function, n c19Need) bool {
+	return c19HasAny(a.entryMu[fn], n.alts)
 }
 
 // heldAlong: on some call chain through which the object flows as a
@@ -508,7 +545,7 @@ func (a *c19An) heldAlong(fn *ssa.Function, i int, n c19Need) bool {
 		if av == nil {
 			continue
 		}
-		if c19HasAny(s.must, n.alts) || c19HasAny(a.entryMu[s.fn], n.alts) {
+		if c19HasAny(s.must, n.alts) || a.siteInherits(s, n) {
 			res = true
 			break
 		}
@@ -1213,6 +1250,13 @@ func (a *c19An) useAt(fn *ssa.Function, at ssa.Instruction, v ssa.Value, n c19Ne
 		switch o.kind {
 		case c19Fresh:
 		case c19Param:
+			if a.entryHolds(fn, n) {
+				// every caller holds the guard, but fn itself released it before this use
+				if ev := a.sharedReaches(fn, o.idx); len(ev) > 0 {
+					out = append(out, c19Blame{fn: fn, instr: at, ev: c19AddEv([]c19Ev{{why: a.w.FuncName(fn) + " releases the caller's lock before this use", fn: fn}}, ev...)})
+				}
+				continue
+			}
 			for _, b := range a.paramNeed(fn, o.idx, n) {
 				if b.instr == nil && b.fn == fn {
 					b.instr = at
@@ -1413,7 +1457,7 @@ func (a *c19An) ruleR2(accs []*c19Access) {
 		switch {
 		case c19HasAny(must, need.alts):
 			r.local++
-		case c19HasAny(a.entryMu[x.fn], need.alts):
+		case a.satisfied(x.fn, x.instr, need):
 			r.caller++
 		default:
 			bl := a.useAt(x.fn, x.instr, x.base, need)
@@ -1443,12 +1487,14 @@ func (a *c19An) ruleR2(accs []*c19Access) {
 		fns = append(fns, f)
 	}
 	sort.Slice(fns, func(i, j int) bool { return fns[i].String() < fns[j].String() })
-	c.AtLeast("C19.R2", "functions that store to SwapData fields", len(fns), 28)
+	c.AtLeast("C19.R2", "functions that store to SwapData fields", len(fns), 24)
 	for _, f := range fns {
 		r := ws[f]
 		cons := w.FuncName(f) + " stores to SwapData"
 		sum := fmt.Sprintf("%d store(s): %d on an unpublished object, %d under the mutex locally, %d with the mutex held by every caller", r.n, r.fresh, r.local, r.caller)
 		switch {
+		case len(r.bad) > 0 && a.unsureFn(f):
+			c.Unknown("C19.R2", cons, w.Pos(r.pos), sum+"; the lock state of this function contains an unsupported shape")
 		case len(r.bad) > 0:
 			c.Bad("C19.R2", cons, w.Pos(r.pos), sum+"; stores "+strings.Join(sortedKeys(r.bad), ", ")+" on a published machine without "+c19SSMMutex+" and no caller holds it")
 		case len(r.undecided) > 0:
